@@ -32,6 +32,7 @@ def _case(draw, worlds):
                    'damping': draw(st.sampled_from([0.003, 0.03, 0.3, 3.0])), 'factor_decay': draw(st.sampled_from([0.95, 0.5])),
                    'kl_clip': kl, 'lr': lr},
             'steps': draw(st.integers(1, 4)), 'update': 'noise', 'data_seed': draw(st.integers(0, 9999)),
+            'zero_to_none': draw(st.booleans()),
             'schedule': draw(st.lists(st.integers(0, 63), max_size=100))}
 
 
